@@ -688,6 +688,11 @@ SELFREF = {
     "value-read-out-of-the-same-map-new-key": (["m = map[int, int] {1: 2}", "m[5] = get m[1]", "m[1] = 9", "print get m[5]", "print m.len()"], ["2", "2"]),
     "replace-with-a-value-read-out-of-the-same-map": (["m = map[int, int] {1: 2, 2: 3}", "print m.replace(2, get m[1])", "print get m[2]"], ["3", "2"]),
     "list-element-written-with-an-element-of-the-same-list": (["l: [int...] = [1, 2, 3]", "l[0] = l[2]", "l[2] = 7", "print l"], ["[3, 2, 7]"]),
+    # a present optional in the boxed form a built-in hands out is, as an element, indistinguishable from the plain value - also when the container is printed
+    "boxed-string-element-prints-like-a-plain-one": (['bm = map[str, str] {"k": "v"}', 'ls: [str?...] = [bm.replace("k", "w")]', "print ls", 'lp: [str?...] = ["v"]', "print lp", "print ls == lp",
+                                                     'print "<" + ls.to_str() + ">"'], ['["v"]', '["v"]', "true", '<["v"]>']),
+    "boxed-string-value-of-a-map-prints-like-a-plain-one": (['bm = map[str, str] {"k": "v"}', 'mo = map[str, str?] {"a": bm.replace("k", "w")}', "print mo", 'sv: str? = "v"', 'mp = map[str, str?] {"a": sv}', "print mp"],
+                                                            ['{"a": "v"}', '{"a": "v"}']),
     "list-pushed-with-its-own-element": (["l: [int...] = [1, 2]", "l.push(l[0])", "l[0] = 9", "print l"], ["[9, 2, 1]"]),
 }
 
